@@ -21,7 +21,7 @@ What it does
      compile); if that build fails they are re-run one group at a time so that a harness file
      broken by a repo edit only takes its own group down.
      Each harness gets its own log file (<scratch>/logs/<harness>.log, kept with --keep).
-  4. pass 2 (only harnesses whose pass-1 verdict is FAILED): re-run each one alone with
+  4. pass 2 (only harnesses whose pass-1 verdict is FAILED and that have inputs): re-run each one alone with
          -Z concrete-playback --concrete-playback=print
      (incompatible with -j; costs ~22 s of CBMC trace generation each, so they run in parallel),
      and decode the `concrete_vals` byte vectors of the generated playback test with the
@@ -39,7 +39,7 @@ Verdicts: SUCCESS | FAILED | UNWIND | TIMEOUT | ERROR | BUILD_ERROR
                (e.g. an item the harness names was renamed in the repo)
 
 Environment knobs (testing): VERIF_SCRATCH, VERIF_KANI_TIMEOUT_S, VERIF_KANI_VMEM_KB,
-VERIF_KANI_JOBS.
+VERIF_KANI_JOBS, VERIF_KANI_HARNESS_DIR.
 """
 
 import argparse
@@ -56,7 +56,7 @@ import sys
 import time
 
 HERE = os.path.dirname(os.path.abspath(__file__))
-HARNESS_DIR = os.path.join(HERE, "harness")
+HARNESS_DIR = os.environ.get("VERIF_KANI_HARNESS_DIR") or os.path.join(HERE, "harness")
 
 MAX_JOBS = int(os.environ.get("VERIF_KANI_JOBS", "8"))
 VMEM_KB = int(os.environ.get("VERIF_KANI_VMEM_KB", str(12 * 1024 * 1024)))
@@ -212,6 +212,8 @@ def full_name(h):
 # Counterexample decoding
 # ---------------------------------------------------------------------------------------------
 
+MARKER = ("_marker", "u8")  # cex_marker() in the harness files: drawn right before the assertions
+
 WIDTH = {"bool": 1, "i8": 1, "u8": 1, "i16": 2, "u16": 2, "i32": 4, "u32": 4, "i64": 8, "u64": 8,
          "i128": 16, "u128": 16, "f32": 4, "f64": 8}
 
@@ -236,6 +238,10 @@ def decode_cex(layout, vecs):
             continue
         ent = layout[i]
         name, ty = ent[0], ent[1]
+        if name == MARKER[0]:
+            if vec != [0xA5]:
+                notes.append("marker byte is %r, expected [165]" % (vec,))
+            continue
         if len(vec) != WIDTH[ty]:
             out[name + "_raw"] = vec
             notes.append("%s: %d bytes, layout declares %s" % (name, len(vec), ty))
@@ -243,14 +249,14 @@ def decode_cex(layout, vecs):
         val = decode_value(ty, vec)
         if len(ent) > 2:
             key = int(val)
-            out[name] = ent[2].get(key, str(val))
-            out[name + "_raw"] = str(key)
+            out[name] = ent[2].get(key, "<%d>" % key)
         else:
             out[name] = val
             if ty in ("f32", "f64"):
                 out[name + "_bits"] = "0x%0*x" % (WIDTH[ty] * 2, int.from_bytes(bytes(vec), "little"))
-    if len(vecs) < len(layout):
-        notes.append("only %d of %d declared inputs were drawn on this trace" % (len(vecs), len(layout)))
+    n_inputs = len([e for e in layout if e[0] != MARKER[0]])
+    if len(vecs) < n_inputs:
+        notes.append("only %d of %d declared inputs were drawn on this trace" % (len(vecs), n_inputs))
     if notes:
         out["_decode_notes"] = notes
     return out
@@ -307,7 +313,7 @@ def parse_playback(text):
 # ---------------------------------------------------------------------------------------------
 
 CHECK_BLOCK = re.compile(
-    r"^Check \d+: (?P<id>\S+)\s*\n\s*- Status: (?P<status>\w+)\s*\n\s*- Description: (?P<desc>.*)\n"
+    r"^Check \d+: (?P<id>.+?)\s*\n\s*- Status: (?P<status>\w+)\s*\n\s*- Description: (?P<desc>.*)\n"
     r"\s*- Location: (?P<loc>.*)$", re.M)
 THREAD_PREFIX = re.compile(r"^Thread \d+: ?", re.M)
 ICE_MARKERS = ("internal compiler error", "Kani unexpectedly panicked", "thread 'rustc' panicked",
@@ -488,12 +494,14 @@ def prepare_unit(scratch, repo, groups, tag):
         gi = GROUPS[g]
         hfile = os.path.join(HARNESS_DIR, gi["file"])
         target = os.path.join(src, "src", gi["module"] + ".rs")
+        if not os.path.isfile(target) and os.path.isfile(os.path.join(src, "src", gi["module"], "mod.rs")):
+            target = os.path.join(src, "src", gi["module"], "mod.rs")
         if not os.path.isfile(hfile):
             missing[g] = "harness file %s is missing" % hfile
             continue
         if not os.path.isfile(target):
-            missing[g] = "module file src/%s.rs does not exist in %s (cannot inject %s)" % (
-                gi["module"], repo, gi["file"])
+            missing[g] = "module file src/%s.rs (or src/%s/mod.rs) does not exist in %s (cannot inject %s)" % (
+                gi["module"], gi["module"], repo, gi["file"])
             continue
         with open(target, "a") as f:
             f.write("\n#[cfg(kani)] #[path = \"%s\"] mod %s;\n" % (hfile, gi["modname"]))
@@ -586,26 +594,54 @@ def playback_one(h, src, target_dir, logs_dir, timeout_s):
     argv = ["cargo", "kani", "-Z", "stubbing", "-Z", "unstable-options", "-Z", "concrete-playback",
             "--concrete-playback=print", "--exact", "--harness", full_name(h), "--target-dir", target_dir]
     log = os.path.join(logs_dir, h + ".playback.log")
-    rc, wall = run_cmd(argv, src, log, timeout_s + 120)
+    t0 = time.time()
+    # private copy of the warm target dir: a changed --harness filter recompiles the crate (~5 s)
+    # under cargo's build lock, which would serialise the parallel playback runs
+    own_target = target_dir + "-pb-" + h
+    cp = subprocess.run(["cp", "-a", target_dir, own_target], capture_output=True)
+    if cp.returncode == 0:
+        argv[-1] = own_target
+    rc, _ = run_cmd(argv, src, log, timeout_s + 120)
+    shutil.rmtree(own_target, ignore_errors=True)
+    wall = time.time() - t0
     text = read(log)
     out = {"playback_time_s": round(wall, 1), "playback_log": log}
+    # One playback test is printed per SATISFIED cover and per FAILED check; Kani then drops a test
+    # that is identical (harness + hash of the values) to the one printed just before it. Every
+    # harness draws a marker byte (cex_marker) right before its assertions, so the test of a
+    # failed *harness assertion* is never identical to a cover's test and is always printed; a
+    # failed check inside library code may still lose its test that way (reported as such).
     blocks = [b for b in parse_playback(text) if b["class"] != "cover"]
-    if not blocks:
+    failed_descs = [clean_desc(m.group("desc")) for m in CHECK_BLOCK.finditer(THREAD_PREFIX.sub("", text))
+                    if m.group("status") == "FAILURE" and ".cover." not in m.group("id")
+                    and "unwinding assertion" not in m.group("desc")]
+    per_check, used = [], set()
+    for desc in failed_descs:
+        hit = next((i for i, b in enumerate(blocks) if i not in used and b["desc"] == desc), None)
+        if hit is None:
+            per_check.append({"check": desc, "values": None,
+                              "note": "no playback test printed by Kani for this check (a test identical to the "
+                                      "one printed before it is dropped)"})
+            continue
+        used.add(hit)
+        dv = decode_cex(layout + [MARKER], blocks[hit]["vals"])
+        if h.startswith("k3_"):
+            dv.update(describe_k3(dv))
+        per_check.append({"check": desc, "values": dv})
+    for i, b in enumerate(blocks):  # tests for checks that the result list did not show as FAILURE
+        if i not in used:
+            per_check.append({"check": b["desc"], "values": decode_cex(layout + [MARKER], b["vals"])})
+    per_check_with_values = [pc for pc in per_check if pc["values"] is not None]
+    if not per_check_with_values:
         out["cex_error"] = "no concrete playback test for a failed check in the output (rc=%d): %s" % (rc, tail(text, 5))
         return out
-    per_check = []
-    for b in blocks:
-        vals = decode_cex(layout, b["vals"])
-        if h.startswith("k3_"):
-            vals.update(describe_k3(vals))
-        per_check.append({"check": b["desc"], "class": b["class"], "values": vals})
     # main cex: prefer the harness' own assertion (description starts with the kernel prefix k<N>)
     main = None
-    for pc in per_check:
+    for pc in per_check_with_values:
         if re.match(r"^k\d", pc["check"]):
             main = pc
             break
-    main = main or per_check[0]
+    main = main or per_check_with_values[0]
     out["cex"] = main["values"]
     out["cex_check"] = main["check"]
     if len(per_check) > 1:
@@ -675,7 +711,7 @@ def main():
                 src_of[h] = src
 
         # pass 2: counterexample values
-        failed = [h for h, r in records.items() if r["verdict"] == "FAILED"]
+        failed = [h for h, r in records.items() if r["verdict"] == "FAILED" and HARNESSES[h]["layout"]]
         if failed and not args.no_playback:
             with concurrent.futures.ThreadPoolExecutor(max_workers=max(1, min(MAX_JOBS, len(failed)))) as ex:
                 futs = {ex.submit(playback_one, h, src_of[h], target_dir, logs_dir, timeout_s): h for h in failed}
